@@ -8,6 +8,7 @@ open Rs1090 Rs1090.Model Rs1090.Driver
 def handle : List String → Option String
   | ["dec", h] => (parseHex h).map fun bs => Message.showDecoded (Message.tryFrom bs)
   | ["dec"] => some (Message.showDecoded (Message.tryFrom []))
+  | ["decb", h] => (parseHex h).map fun bs => Message.showDecoded (Message.fromBytes bs)
   /- the timed record of one reception at t = 1.5 s with no metadata -/
   | ["timed", h] => (parseHex h).map fun bs => Message.showDecoded (Timed.record (jrat 3 2) bs)
   | _ => none
